@@ -176,6 +176,46 @@ fn stream_case(sum: &mut Summary, case: &Value, rng: &mut StdRng) {
     sum.case("C11", if nontrivial { Some(format!("stream/{}", st.join(","))) } else { None }, || json!({"stream": st, "shares": shares.len()}));
 }
 
+/// A reserved-namespace share (every kind) inside the share run of a multi-share blob must be ignored.
+fn inside_case(sum: &mut Summary, case: &Value, rng: &mut StdRng) {
+    let expect: Vec<(usize, bool)> = case["blobs"].as_array().unwrap().iter().map(|b| (b[0].as_u64().unwrap() as usize, b[1].as_u64().unwrap() == 1)).collect();
+    let npre = case["pre"].as_array().unwrap().len();
+    let r = case["r"].as_str().unwrap();
+    let p = case["p"].as_u64().unwrap() as usize;
+    let app = app_version(expect.iter().any(|b| b.1), rng);
+    let mut shares: Vec<Share> = vec![];
+    let mut blobs: Vec<Blob> = vec![];
+    let mut prev_ns = rand_ns(rng);
+    for (bi, (len, s)) in expect.iter().enumerate() {
+        let ns = if rng.gen_bool(0.5) { prev_ns } else { rand_ns(rng) };
+        prev_ns = ns;
+        let blob = match catch(|| Blob::new(ns, rand_data(*len, rng), if *s { Some(rand_signer(rng)) } else { None }, app)) {
+            Ok(Ok(b)) => b,
+            other => return viol(sum, "new", "error", case, format!("Blob::new failed: {:?}", other.map(|r| r.map(|_| ())))),
+        };
+        let bs = blob.to_shares().unwrap();
+        let n = bs.len();
+        for (k, sh) in bs.into_iter().enumerate() {
+            shares.push(sh);
+            // gap after the (k+1)-th share of the middle blob, never after its last share
+            if bi == npre && k + 1 < n && (p == 0 || p == k + 1) {
+                shares.push(reserved_share(r, rng));
+            }
+        }
+        blobs.push(blob);
+    }
+    if shares.len() as u64 != case["nshares"].as_u64().unwrap() {
+        sum.drift("C11", json!({"case": case, "diffs": [format!("stream has {} shares, model {}", shares.len(), case["nshares"])]}));
+    }
+    match catch(|| Blob::reconstruct_all(shares.iter(), app)) {
+        Ok(Ok(got)) if got == blobs => {}
+        Ok(Ok(got)) => viol(sum, "reconstruct_all", "inside-differs", case, format!("reconstruct_all with a {r} share inside a blob returned {} blobs, expected {}", got.len(), blobs.len())),
+        Ok(Err(e)) => viol(sum, "reconstruct_all", "inside-error", case, format!("reconstruct_all with a {r} share inside a blob (gap {p}) failed: {e}")),
+        Err(pn) => viol(sum, "reconstruct_all", "panic", case, pn),
+    }
+    sum.case("C11", Some(format!("inside/{}/{}/{r}/{p}/{}", case["pre"], case["b"], case["post"])), || json!({"inside": r, "gap": p, "blob": case["b"], "shares": shares.len()}));
+}
+
 pub fn replay(args: &Args) {
     let cases = read_cases(args.pos(2));
     let mut rng = StdRng::seed_from_u64(args.opt_u64("seed", 1));
@@ -184,6 +224,7 @@ pub fn replay(args: &Args) {
         match case["kind"].as_str().unwrap() {
             "layout" => layout_case(&mut sum, case, &mut rng),
             "stream" => stream_case(&mut sum, case, &mut rng),
+            "inside" => inside_case(&mut sum, case, &mut rng),
             x => tool_error(&format!("unknown case kind {x}")),
         }
     }
